@@ -907,7 +907,8 @@ func constructDateFromTmp(tmp tmpDate) Date {
 		} else {
 			yearStart = datetimeISOYearStart(result.Year())
 		}
-		datetime := yearStart.AddTimeSpan(TimeSpan(tmp.isoWeek) * Week)
+		// week 1 starts at the start of the ISO year
+		datetime := yearStart.AddTimeSpan(TimeSpan(tmp.isoWeek-1) * Week)
 		result = datetime.Date()
 		hasWeek = true
 	}
